@@ -1065,6 +1065,49 @@ theorem textObjWord_contains_cursor (s : WS) (cur : Nat) (big around : Bool) (a 
               · cases h; exact ⟨c1, c2, c3⟩
           · cases h; exact ⟨c1, c2, c3⟩
 
+/-- **`aw` covers `iw`**: the around-object is the inside-object plus blanks (and, on blanks, the next word). -/
+theorem aw_covers_iw (s : WS) (cur : Nat) (big : Bool) (a b c d : Nat)
+    (ha : textObjWord s cur big true = some (a, b)) (hi : textObjWord s cur big false = some (c, d)) :
+    a ≤ c ∧ d ≤ b := by
+  unfold textObjWord at ha hi
+  cases hr : wordRun s big cur with
+  | none => simp [hr] at hi
+  | some r =>
+    obtain ⟨st, en⟩ := r
+    simp only [hr, Bool.not_false, ↓reduceIte, Option.some.injEq, Prod.mk.injEq] at hi
+    obtain ⟨h1, h2⟩ := hi
+    subst h1; subst h2
+    simp only [hr, Bool.not_true, Bool.false_eq_true, ↓reduceIte] at ha
+    split at ha
+    · cases hr2 : wordRun s big (en + 1) with
+      | none => simp [hr2] at ha
+      | some r2 =>
+        obtain ⟨x, e2⟩ := r2
+        obtain ⟨_, d2, _, _⟩ := wordRun_spec s big (en + 1) x e2 hr2
+        simp only [hr2, Option.some.injEq, Prod.mk.injEq] at ha
+        obtain ⟨h1, h2⟩ := ha; subst h1; subst h2
+        exact ⟨Nat.le_refl _, by omega⟩
+    · split at ha
+      · cases hr2 : wordRun s big (en + 1) with
+        | none => simp only [hr2] at ha; cases ha; exact ⟨Nat.le_refl _, Nat.le_refl _⟩
+        | some r2 =>
+          obtain ⟨x, e2⟩ := r2
+          obtain ⟨_, d2, _, _⟩ := wordRun_spec s big (en + 1) x e2 hr2
+          simp only [hr2, Option.some.injEq, Prod.mk.injEq] at ha
+          obtain ⟨h1, h2⟩ := ha; subst h1; subst h2
+          exact ⟨Nat.le_refl _, by omega⟩
+      · split at ha
+        · cases hr2 : wordRun s big (st - 1) with
+          | none => simp only [hr2] at ha; cases ha; exact ⟨Nat.le_refl _, Nat.le_refl _⟩
+          | some r2 =>
+            obtain ⟨rs, y⟩ := r2
+            obtain ⟨d1, _, _, _⟩ := wordRun_spec s big (st - 1) rs y hr2
+            simp only [hr2] at ha
+            split at ha
+            · cases ha; exact ⟨by omega, Nat.le_refl _⟩
+            · cases ha; exact ⟨Nat.le_refl _, Nat.le_refl _⟩
+        · cases ha; exact ⟨Nat.le_refl _, Nat.le_refl _⟩
+
 /-- `daw` on "foo bar baz" with the cursor in `bar` takes "bar " (it used to take "ba"). -/
 example : textObjWord ⟨[2, 2, 2, 1, 2, 2, 2, 1, 2, 2, 2, 4]⟩ 5 false true = some (4, 7) := by decide
 /-- on the last word there are no blanks after it: the blanks before it are taken -/
@@ -1077,3 +1120,78 @@ example : textObjWord ⟨[2, 2, 4, 2, 2]⟩ 1 false false = some (0, 1) := by de
 example : textObjWord ⟨[2, 4, 4, 2]⟩ 1 false false = none := by decide
 
 end Vicut.Words
+
+/-! # Whole-line commands, put and `r` after the line-end repairs -/
+namespace Vicut.LineEnd
+open Vicut
+
+/-- **`dd` / `yy` / `cc` always have a line to work on**: with a count of one, `select_lines_down` is the
+cursor line, also on the last line of the buffer (it used to fail there). -/
+theorem whole_line_count_one (s : MS) : s.selectLinesDown 0 = some (s.sol, s.eol) := by
+  simp [MS.selectLinesDown]
+
+/-- A count larger than one fails exactly on the last line. -/
+theorem whole_line_count_fails_on_last (s : MS) (n : Nat) (hn : n > 0) (hl : s.eol = s.max) :
+    s.selectLinesDown n = none := by
+  unfold MS.selectLinesDown
+  have : ¬ n = 0 := by omega
+  simp [this, hl]
+
+/-- **`p` on an empty line (or in an empty buffer) inserts where the cursor is**, otherwise right after
+the cursor grapheme; `P` always inserts at the cursor. -/
+theorem putIdx_spec (lb : LB) :
+    putIdx lb false = lb.cur ∧
+    (endsLineAt lb.gs lb.cur = true → putIdx lb true = lb.cur) ∧
+    (endsLineAt lb.gs lb.cur = false → putIdx lb true = lb.cur + 1) := by
+  refine ⟨by simp [putIdx], ?_, ?_⟩ <;> intro h <;> simp [putIdx, h]
+
+/-- `p` never inserts after a line terminator that the cursor is on, so the put text stays on the cursor's
+line: the grapheme before the insertion point of `p` is the cursor grapheme, and it is not a terminator. -/
+theorem put_after_stays_on_line (lb : LB) (h : putIdx lb true = lb.cur + 1) : isNlAtGs lb.gs lb.cur = false := by
+  unfold putIdx at h
+  split at h
+  · rename_i hc
+    simp only [Bool.and_eq_true, Bool.not_eq_eq_eq_not, Bool.not_true, true_and] at hc
+    unfold endsLineAt at hc
+    unfold isNlAtGs
+    cases hg : lb.gs[lb.cur]? with
+    | none => rfl
+    | some g => simpa [hg] using hc
+  · omega
+
+/-- **`[n]r<c>` with fewer than `n` graphemes left on the line changes nothing.** -/
+theorem replace_past_line_end_is_noop (lb : LB) (mk : MK) (reg : RegName) (regs : Regs) (c : Char) (n : Nat)
+    (h : n > leftOnLine lb.gs (lb.gs.length - lb.cur) lb.cur) :
+    execVerbText (.replaceInplace c n) mk reg lb regs = .ok ⟨lb.gs.flatten, regs⟩ := by
+  simp [execVerbText, h]
+
+/-- `left_on_line`: the graphemes it counts are all on the line (none is a terminator). -/
+theorem leftOnLine_spec (gs : List Gr) (f i : Nat) :
+    ∀ k, k < leftOnLine gs f i → isNlAtGs gs (i + k) = false ∧ i + k < gs.length := by
+  induction f generalizing i with
+  | zero => intro k hk; simp [leftOnLine] at hk
+  | succ f ih =>
+    intro k hk
+    simp only [leftOnLine] at hk
+    cases hg : gs[i]? with
+    | none => simp [hg] at hk
+    | some g =>
+      simp only [hg] at hk
+      split at hk
+      · omega
+      · rename_i hnl
+        cases k with
+        | zero =>
+          refine ⟨?_, ?_⟩
+          · simp only [isNlAtGs, Nat.add_zero, hg]; simpa using hnl
+          · rcases List.getElem?_eq_some_iff.mp hg with ⟨h1, _⟩; simpa using h1
+        | succ k =>
+          have := ih (i + 1) k (by omega)
+          have e : i + (k + 1) = i + 1 + k := by omega
+          rw [e]; exact this
+
+example : leftOnLine [['a'], ['b'], ['\n'], ['c']] 4 0 = 2 := by decide
+example : putIdx ⟨[['a'], ['\n'], ['\n'], ['b']], 2, true⟩ true = 2 := by decide
+example : putIdx ⟨[['a'], ['\n'], ['\n'], ['b']], 0, true⟩ true = 1 := by decide
+
+end Vicut.LineEnd
